@@ -654,6 +654,10 @@ class NpyArray:
 
     def __setitem__(self, sl, value):
         """Set data at slice `sl` to `value`."""
+        # Make earlier appends visible in the file header before modifying data in place,
+        # otherwise the file could show the new data without the appended rows
+        if self._header_bytes_to_write:
+            self.flush()
         self.memmap[sl] = value
 
     def __len__(self):
